@@ -19,8 +19,8 @@ def upBlock (data R : Bytes) (h : Hdrs) : List Ammo × Stop :=
       match decodeURI (c :: d) with
       | .error e => ([], .err e)
       | .ok (n, uri, tag) =>
-        if n < 0 then ([], .err .panic)
-        else if R.length < n.toNat then ([], .err .shortread)
+        if n < 0 then ([], .err (sizeErr uri .negsize))
+        else if R.length < n.toNat then ([], .err (sizeErr uri .shortread))
         else
           let q := uripostPass true (R.drop n.toNat) h
           ({ method := postBytes, url := uri, body := R.take n.toNat, tag := tag, hdrs := h } :: q.1, q.2)
